@@ -29,7 +29,7 @@ ASSUMPTIONS = ['func_int_general: the basis callable follows the func_basis conv
                'grid sizes n >= 2 (a Chebyshev grid of one node is not a grid)']
 
 BOXES = {
-    'sym1': (-1.0, 1.0), 'unit': (0.0, 1.0), 'asym': (-2.0, 3.0), 'tiny': (1e-3, 2e-3), 'far': (5.0, 7.0), 'sym3': (-3.0, 3.0),
+    'sym1': (-1.0, 1.0), 'unit': (0.0, 1.0), 'asym': (-2.0, 3.0), 'tiny': (1e-3, 2e-3), 'far': (5.0, 7.0), 'sym3': (-3.0, 3.0), 'odd1': (-0.3, 1.1), 'odd2': (0.1, 0.7),
 }
 
 
@@ -48,7 +48,9 @@ def points(a, b, n):
     xs += list((nd[:-1] + nd[1:]) / 2)
     xs += [a, b]
     xs += [a + (b - a) * ((np.sqrt(2) * k) % 1.0) for k in (1, 2, 3)]
-    return np.array(xs)
+    # the catalogue is of points OF THE BOX: an end node of a box with non-binary bounds may round one ulp outside it (0.3 + 0.4 > 0.7),
+    # where the fill value is the promised answer; such nodes are moved onto the bound
+    return np.clip(np.array(xs), a, b)
 
 
 def tol(a, b, p, c=1e-12):
@@ -98,6 +100,10 @@ def check_mono(c):
                       lambda: 'func_get_full deviates by %.3e (tol %.1e)' % (np.abs(got - want).max(), T), tags)
             z = teneva.func_get_full(Xout, Ad, a, b, z=-7.5)
             res.check(np.all(z[:3] == -7.5), 'full.outside', case, lambda: 'outside points got %s' % z[:3], tags)
+            for zi in (0, -7, np.int64(3)):                                  # integer-typed fill value: inside points untouched, outside get it
+                gi = teneva.func_get_full(np.vstack([X, Xout[:3]]), Ad, a, b, z=zi)
+                res.check(np.abs(gi[:len(X)] - want).max() <= T and np.all(gi[len(X):] == zi), 'full.fill_int', dict(case, z=int(zi)),
+                          lambda: 'func_get_full with integer fill value deviates by %.3e' % np.abs(gi[:len(X)] - want).max(), tags)
             try:
                 sv = teneva.func_sum_full(Ad, a, b)
                 raised = False
@@ -130,6 +136,10 @@ def check_mono(c):
                 res.check(np.ndim(one) == 0 and abs(one - want[1]) <= T, 'tt.get.single', case, 'single point differs', tags)
                 z = teneva.func_get(Xout, A, a, b, z=-7.5)
                 res.check(np.all(z[:3] == -7.5), 'tt.outside', case, lambda: 'outside points got %s' % z[:3], tags)
+                for zi in (0, -7, np.int64(3)):
+                    gi = teneva.func_get(np.vstack([X, Xout[:3]]), A, a, b, z=zi)
+                    res.check(np.abs(gi[:len(X)] - want).max() <= T and np.all(gi[len(X):] == zi), 'tt.fill_int', dict(case, z=int(zi)),
+                              lambda: 'func_get with integer fill value deviates by %.3e' % np.abs(gi[:len(X)] - want).max(), tags)
                 sv = teneva.func_sum(A, a, b)
                 res.check(abs(sv - integ) <= Ti, 'tt.sum', case, lambda: 'func_sum %.12g vs exact %.12g' % (sv, integ), tags)
                 for m in c['ms']:
@@ -355,9 +365,9 @@ def strata(tier, seed):
         for shape in itertools.product(ns, repeat=d):
             boxes = [[bk] * d for bk in single]
             if d >= 2:
-                boxes += [['sym1', 'asym', 'far'][:d], ['tiny', 'unit', 'sym3'][:d]]
+                boxes += [['sym1', 'asym', 'far'][:d], ['tiny', 'unit', 'sym3'][:d], ['odd1', 'odd2', 'asym'][:d]]
             if tier == 'quick' and d == 3:
-                boxes = [['sym1'] * 3, ['asym'] * 3, ['sym1', 'asym', 'far']]
+                boxes = [['sym1'] * 3, ['asym'] * 3, ['sym1', 'asym', 'far'], ['odd1', 'odd2', 'far']]
             for box in boxes:
                 cs.append(dict(shape=list(shape), box=box, ms=[2, 3, 7] if tier == 'quick' else [2, 3, 4, 5, 6, 7], seed=seed))
     if tier != 'quick':
